@@ -93,14 +93,14 @@ def record_case(ptn, c):
                 first.zero_qnumbers() if c['seed'] % 2 else first.orthonormalize(mode='right')
             mpo = ctor(tk_in, vi_in, optimize=opt)
             if not c.get('lists'):
-                tr.append(dict(ev='flag', what='constructor modified its coefficient arrays', ok=bool(np.array_equal(tk_in, tk) and np.array_equal(vi_in, vi)
+                tr.append(dict(ev='flag', what='constructor modified its coefficient arrays', foreign=True, ok=bool(np.array_equal(tk_in, tk) and np.array_equal(vi_in, vi)
                                                                                                  and tk_in.dtype == tk.dtype and vi_in.dtype == vi.dtype)))
             H2 = 4 * np.asarray(mpo.as_matrix(sparse_format=(n >= 5)).toarray() if n >= 5 else mpo.as_matrix())
             dense[opt] = H2
             ok = bool(np.array_equal(np.rint(H2.real), Href2.real) and np.array_equal(np.rint(H2.imag), Href2.imag)
                       and np.max(np.abs(H2 - Href2), initial=0) < 1e-9)
             tr.append(dict(ev='flag', what=f'{"spin" if spin else "spinless"} molecular MPO (optimize={opt}, L={n}, {kind}) differs from the second-quantized operator', ok=ok))
-            tr.append(dict(ev='flag', what=f'molecular MPO (optimize={opt}, L={n}) tensors not block sparse / charge lists inconsistent',
+            tr.append(dict(ev='flag', what=f'molecular MPO (optimize={opt}, L={n}) tensors not block sparse / charge lists inconsistent', foreign=True,
                            ok=bool(canon.all_sparse(mpo, 'mpo') and canon.types_ok(mpo, 'mpo'))))
             if c['tlc']:
                 Ts, S = scaled_tensors(mpo, 'none', 4 if spin else 2)
@@ -158,7 +158,7 @@ def record_gauge(ptn, c):
         v_l, v_r = ptn.molecular_hamiltonian_orbital_gauge_transform(h, u2.astype(complex), i)
         tr.append(dict(ev='flag', what=f'gauge matrices not unitary (L={L}, i={i})',
                        ok=bool(np.allclose(v_l.conj().T @ v_l, np.eye(len(v_l)), atol=1e-10) and np.allclose(v_r.conj().T @ v_r, np.eye(len(v_r)), atol=1e-10))))
-        tr.append(dict(ev='flag', what='gauge transform modified the MPO', ok=bool(all(np.array_equal(a, b) for a, b in zip(before, h.A)))))
+        tr.append(dict(ev='flag', what='gauge transform modified the MPO', foreign=True, ok=bool(all(np.array_equal(a, b) for a, b in zip(before, h.A)))))
         g = ptn.MPO(h.qd, [q.tolist() for q in h.qD], fill='postpone')
         g.A = [a.copy() for a in h.A]
         g.A[i] = np.einsum(v_l, (2, 4), hr.A[i], (0, 1, 4, 3), (0, 1, 2, 3))
